@@ -55,9 +55,11 @@ stageLoop:
 			*logql.LabelFilter,
 			*logql.LabelFormatExpr,
 			*logql.DropLabelsExpr,
-			*logql.KeepLabelsExpr,
-			*logql.DistinctFilter:
+			*logql.KeepLabelsExpr:
 			// Do nothing on line, just skip.
+		case *logql.DistinctFilter:
+			// Stage is stateful: line filters after this stage must not be applied before it.
+			break stageLoop
 		case *logql.LineFormat,
 			*logql.DecolorizeExpr,
 			*logql.UnpackLabelParser:
